@@ -6,7 +6,9 @@ import (
 	"io"
 	"log"
 	"os"
+	"runtime"
 	"sync"
+	"sync/atomic"
 	"testing"
 	"time"
 
@@ -386,7 +388,140 @@ func scenario(k int) {
 	}
 }
 
+// ---- racing phase (real time, -race): registrations and deliveries race ------------
+
+type life struct {
+	owner            int
+	bindRet, closeCall int64 // logical stamps: Bind returned / Close about to be called
+	got              []uint32
+	gotAt            []int64
+}
+
+func racing(k int) {
+	r := fw.NewRand(run.Seed, "C09", "race", k)
+	w := newWorld()
+	var clk int64
+	now := func() int64 { return atomic.AddInt64(&clk, 1) }
+	addrs := []tcpip.Address{l11, l12}
+	const port = 100
+	var mu sync.Mutex
+	var lives []*life
+	type inj struct {
+		id         uint32
+		dst        int
+		call, ret  int64
+	}
+	var injs []inj
+	stop := make(chan struct{})
+	var wg sync.WaitGroup
+	for g := 0; g < 2; g++ {
+		g := g
+		rr := r.Split("opener", g)
+		wg.Add(1)
+		go func() {
+			defer wg.Done()
+			for i := 0; i < 40; i++ {
+				select {
+				case <-stop:
+					return
+				default:
+				}
+				ep, err := w.s.NewEndpoint(udp.ProtocolNumber, ipv4.ProtocolNumber, &waiter.Queue{})
+				if err != nil {
+					return
+				}
+				if e := ep.Bind(tcpip.FullAddress{Addr: addrs[g], Port: port}, nil); e != nil {
+					ep.Close()
+					continue
+				}
+				l := &life{owner: g, bindRet: now()}
+				for j := 0; j < 1+rr.Intn(20); j++ {
+					runtime.Gosched()
+				}
+				// drain, then close
+				for {
+					v, _, e := ep.Read(nil)
+					if e != nil {
+						break
+					}
+					if len(v) >= 4 {
+						l.got = append(l.got, uint32(v[0])<<24|uint32(v[1])<<16|uint32(v[2])<<8|uint32(v[3]))
+						l.gotAt = append(l.gotAt, now())
+					}
+				}
+				l.closeCall = now()
+				ep.Close()
+				mu.Lock()
+				lives = append(lives, l)
+				mu.Unlock()
+			}
+		}()
+	}
+	wg.Add(1)
+	go func() {
+		defer wg.Done()
+		ri := r.Split("inj")
+		for i := 0; i < 3000; i++ {
+			select {
+			case <-stop:
+				return
+			default:
+			}
+			d := ri.Intn(2)
+			var s4, d4 [4]byte
+			copy(s4[:], r19)
+			copy(d4[:], addrs[d])
+			id := uint32(k)<<16 | uint32(i)
+			u := rfc.UDP{SrcPort: 5000, DstPort: port, Payload: []byte{byte(id >> 24), byte(id >> 16), byte(id >> 8), byte(id), 'x'}}
+			ip := rfc.IPv4{TTL: 64, Proto: rfc.ProtoUDP, ID: uint16(i), Src: s4, Dst: d4, Payload: u.Bytes4(s4, d4, true)}
+			c := now()
+			w.links[1].Inject(ipv4.ProtocolNumber, ip.Bytes(true), "")
+			rt := now()
+			mu.Lock()
+			injs = append(injs, inj{id, d, c, rt})
+			mu.Unlock()
+			if i%16 == 0 {
+				runtime.Gosched()
+			}
+		}
+	}()
+	wg.Wait()
+	close(stop)
+	byID := map[uint32]inj{}
+	for _, x := range injs {
+		byID[x.id] = x
+	}
+	seen := map[uint32]int{}
+	delivered := 0
+	for _, l := range lives {
+		for _, id := range l.got {
+			delivered++
+			seen[id]++
+			x, ok := byID[id]
+			switch {
+			case !ok:
+				run.Violation("C09/racing/unknown-datagram", fmt.Sprintf("a socket returned datagram %#x that was never injected", id), k)
+			case seen[id] > 1:
+				run.Violation("C09/racing/delivered-twice", fmt.Sprintf("datagram %#x was returned by two sockets", id), k)
+			case x.dst != l.owner:
+				run.Violation("C09/racing/wrong-address", fmt.Sprintf("datagram %#x for address %d was returned by a socket bound to address %d", id, x.dst, l.owner), k)
+			case x.call > l.closeCall:
+				run.Violation("C09/racing/delivered-after-close", fmt.Sprintf("datagram %#x injected at logical time %d was returned by a socket whose owner had already decided to close it at %d", id, x.call, l.closeCall), k)
+			}
+		}
+	}
+	run.Case(fw.Hash("racing", k), delivered > 0)
+	run.Count("racing_datagrams_delivered", int64(delivered))
+	run.Count("racing_socket_lifetimes", int64(len(lives)))
+}
+
 func child(t *testing.T) {
+	if os.Getenv("VERIF_PHASE") == "racing" {
+		for k := 0; k < fw.N(60, 3000) && run.Violations() < 3; k++ {
+			racing(k)
+		}
+		os.Exit(run.Finish("", nil))
+	}
 	var lo, hi int
 	fmt.Sscan(os.Getenv("VERIF_RANGE"), &lo, &hi)
 	vt.Bubble(t, func() {
@@ -420,7 +555,11 @@ func TestC09(t *testing.T) {
 		}()
 	}
 	wg.Wait()
-	code := run.Finish("a real stack with two interfaces (three IPv4 addresses) holds a PRNG-built set of 1-10 sockets over three ports: UDP bound to the wildcard / a specific address / an interface, UDP connected with and without naming the interface, TCP listeners on the wildcard or a specific address; some are closed again and one address may be removed. Then the full cross product (interface x destination address incl. a foreign one x destination port incl. an unused one x three sources x two source ports) is injected as UDP datagrams with unique payloads and, for a third of it, as TCP SYNs. After each UDP packet every socket is read: the payload must be on exactly the socket chosen by an independent reference matcher (interface owns the destination address; per-interface registrations before global ones; 4-tuple > connected > specific local address > port only) or nowhere. A SYN must draw exactly one SYN-ACK when a listener matches, exactly one reset when nothing matches, and nothing when the address is not assigned. distinct = socket-set shapes",
+	res := run.RunChild(fw.ChildSpec{Bin: os.Getenv("VERIF_BIN_RACE"), Test: "^TestC09$", Tag: "racing", Race: true, Anchors: []string{"stack/", "protocol/transport/udp/", "protocol/ports/"}, Env: []string{"VERIF_PHASE=racing"}})
+	if !res.Done {
+		run.ChildCrashed(res, "C09/racing", nil)
+	}
+	code := run.Finish("a real stack with two interfaces (three IPv4 addresses) holds a PRNG-built set of 1-10 sockets over three ports: UDP bound to the wildcard / a specific address / an interface, UDP connected with and without naming the interface, TCP listeners on the wildcard or a specific address; some are closed again and one address may be removed. Then the full cross product (interface x destination address incl. a foreign one x destination port incl. an unused one x three sources x two source ports) is injected as UDP datagrams with unique payloads and, for a third of it, as TCP SYNs. After each UDP packet every socket is read: the payload must be on exactly the socket chosen by an independent reference matcher (interface owns the destination address; per-interface registrations before global ones; 4-tuple > connected > specific local address > port only) or nowhere. A SYN must draw exactly one SYN-ACK when a listener matches, exactly one reset when nothing matches, and nothing when the address is not assigned. Racing phase (real time, pinned toolchain, race detector): two goroutines keep opening, draining and closing UDP sockets bound to two addresses of one port while a third injects uniquely numbered datagrams; a datagram may be returned by at most one socket, only by one bound to its destination address, and never by a socket whose owner had decided to close it before the datagram was injected (logical stamps). distinct = socket-set shapes",
 		[]string{"reference matcher in h/c09 written from the statement", "a removed address that an open socket is still bound/connected to is reported under its own key"})
 	os.Exit(code)
 }
